@@ -20,17 +20,20 @@ EXHAUSTIVE = {"quick": False, "thorough": False}
 ASSUMPTIONS = ["model assumptions as for C01", "sanitise part: tables whose registers use no/min/max/range/callback constraints (an always-fail register cannot be reset to its default after initialisation)"]
 TRUSTED = ["correspondence harness harness/h_regtable.c + tools/lib/vf.py"]
 DESIGN_REF = "DESIGN.md section 8, C05"
-TECHNIQUE = "Lean 4 invariant proof by induction over operation histories of the register-table model (constraints hold after every checked operation, refused operations change nothing, bit operations) + random/biased histories in the differential correspondence"
-LEVEL_TEXT = ("Machine-checked proof over the Lean model: every refused typed set, bit set/clear or block write leaves the table unchanged; a successful checked set makes the "
-              "register hold a value satisfying its constraint; bit set/clear are defined on unsigned registers only and change exactly the requested bits (subject to the "
-              "constraint); these lift by induction to every history of checked operations.  Tied to the C code by long biased operation sequences with out-of-band corruption "
-              "before sanitise.")
+TECHNIQUE = "Lean 4 invariant proof by induction over operation histories of the register-table model (typed set, bit set/clear, block write, sanitise: constraints hold after every checked operation, refused operations change nothing; sanitise loop invariant from arbitrary storage content) + random/biased histories with out-of-band corruption in the differential correspondence"
+LEVEL_TEXT = ("Machine-checked proof over the Lean model: history_preserves_constraints - from a table in the state register_init leaves (structure + every register satisfying its "
+              "constraint; goodTable_good shows the state is inhabited) every history of typed sets, bit set/clear, block writes and sanitise runs keeps every register decoding and "
+              "satisfying its constraint; every refused typed set, bit operation or block write leaves the whole table unchanged; bit set/clear exist on unsigned registers only and "
+              "change exactly the requested bits; block_write_frame (C02) bounds what a block write changes.  sanitise_restores/sanitise_values: from ANY storage content a sanitise "
+              "run that reports success leaves every register satisfying its constraint and untouched, registers that decoded and satisfied their constraint read as before and all "
+              "others read as their default; sanitise_succeeds: it reports success whenever nothing needs repair.  Tied to the C code by long biased operation sequences with "
+              "out-of-band corruption before sanitise.")
 LEVEL_NOTE = "Trusted: as C01."
 KEEP_PREFIX = 2
 
 
 def theorem_for(d):
-    return "Ufw.Props.C05 (refused_unchanged / set_establishes_constraint / bit_ops / inv_run)"
+    return "Ufw.Props.C05 (history_preserves_constraints / sanitise_restores / sanitise_values / *_refused_unchanged / bit_op_spec)"
 
 
 def make_table(rnd, with_fail):
